@@ -94,6 +94,10 @@ def run(tier):
             raise MachineryError(f"TLC failed on EnsembleMC for {spec.name}")
         mc_states += r.distinct
         mc_runs.append({"system": spec.text(), "distinct_states": r.distinct, "depth": r.depth})
+    n_proved, _, t_pr = common.run_tlapm("FirstCrossingProofs")
+    mc_runs.append({"unbounded_proof": "spec/proofs/FirstCrossingProofs.tla", "tool": "tlapm (TLAPS)", "obligations_proved": n_proved, "seconds": round(t_pr, 2),
+                    "theorem": "Spec => []StoppedAtFirstCrossing (Strict = FALSE is C13's stop rule)",
+                    "bound_to_the_machine_by": "PROPERTY ImplementsFirstCrossing of spec/EnsembleRefinesFC.tla, checked by TLC on every system above"})
     # systems that are not generable must refuse on both entry points
     refusals = 0
     for text, smw in (("CCO.|30%|CCC.|70%|", None), ("CCO.|30%|CCC", None), ("CC.|40%|O{[$][$]CC[$][$]}N", 150), ("CCO.|10%|CCC.|100|CCCC.|100|", None),
